@@ -236,18 +236,19 @@ Definition has_own (t : cty) : bool :=
   end.
 
 (* SEQUENCE_constraint *)
+Definition is_copt (t : cty) : bool := match t with COpt _ => true | _ => false end.
 Definition walk_members (f : cty -> val -> res) : list cty -> list val -> res :=
   fix go ms vs :=
     match ms, vs with
     | [], [] => ROk
     | m :: ms', v :: vs' =>
-        match m, v with
-        | COpt _, VNone => go ms' vs'                         (* absent OPTIONAL: continue *)
-        | _, VNone => RFail WAbsent                           (* mandatory element absent *)
-        | _, _ =>
+        match v with
+        | VNone => if is_copt m then go ms' vs'                (* absent OPTIONAL: continue *)
+                   else RFail WAbsent                          (* mandatory element absent *)
+        | _ =>
             if has_own m then
               match f m v with ROk => go ms' vs' | e => e end
-            else f m v                                        (* `return elm->type->...general_constraints(...)` *)
+            else f m v                                         (* `return elm->type->...general_constraints(...)` *)
         end
     | _, _ => RFail WShape
     end.
@@ -325,6 +326,10 @@ Fixpoint own_but_last (ms : list cty) : bool :=
   | m :: r => has_own m && own_but_last r
   end.
 
+(* OPTIONAL occurs only as a direct member of a SEQUENCE, not behind a reference *)
+Fixpoint opt_free_head (t : cty) : bool :=
+  match t with COpt _ => false | CRef _ t' => opt_free_head t' | _ => true end.
+
 Fixpoint safe (t : cty) (slot : bool) {struct t} : bool :=
   match t with
   | CBool | CNull => true
@@ -333,7 +338,7 @@ Fixpoint safe (t : cty) (slot : bool) {struct t} : bool :=
   | CSeq ms => own_but_last ms && forallb (fun m => safe m true) ms
   | CSeqOf sz e => size_safe sz && (slot || negb (nonnil sz)) && safe e true
   | CChoice alts => forallb (fun a => safe a true) alts
-  | CRef g t' => safe t' g
+  | CRef g t' => opt_free_head t' && safe t' g
   | COpt t' => safe t' slot
   end.
 
